@@ -314,6 +314,15 @@ impl Reader {
 					)));
 				}
 
+				// A metadata record carries a checksum like every other record: verify it
+				// before acting on it, otherwise a damaged type byte turns a data record
+				// into a "compression type" record that is consumed without any check.
+				let record_data =
+					&self.buffer[self.buffer_offset..self.buffer_offset + length as usize];
+				if calculate_crc32(&[type_byte], record_data) != crc {
+					return Err(Error::IO(IOError::new(io::ErrorKind::Other, "checksum mismatch")));
+				}
+
 				// Parse and store compression type
 				if length > 0 {
 					let compression_byte = self.buffer[self.buffer_offset];
